@@ -26,6 +26,33 @@ CHECKS: dict[str, dict] = {
         "thousands of real renders against the same clauses after every token.",
         design_ref="DESIGN.md 3 C01",
     ),
+    "C08": dict(
+        technique="TLA+ state machine of RenderIterator (RenderIter.tla) explored by TLC; every edge of the "
+        "state graph replayed into the real iterator (spec->code) and random real histories validated "
+        "by TLC (code->spec)",
+        text="TLC enumerates every operation history up to a depth bound (definite and INDEFINITE sources, "
+        "all loop/cache/ownership variants) and checks the action properties; all edges are executed "
+        "on real RenderIterator objects comparing frames, loop, errors and the renderable's frame after "
+        "every call; long random histories recorded from the real code are validated against the spec.",
+        design_ref="DESIGN.md 3 C08",
+    ),
+    "C09": dict(
+        technique="RenderIter.tla (cache model, NoRerender / FrameMatchesSettings) + replay on paired "
+        "cached/uncached real iterators + TLC-validated paired histories",
+        text="The cached model is explored exhaustively within bounds; every edge is replayed on a pair of "
+        "real iterators (cache on/off) whose frames must be identical and whose render counts must "
+        "follow the spec; random paired histories are validated by TLC.",
+        design_ref="DESIGN.md 3 C09",
+    ),
+    "C10": dict(
+        technique="RenderIter.tla ownership/finalization invariants + RenderOp.tla lifecycle automaton; "
+        "edge replay with a finalization log and TLC-validated event logs",
+        text="TLC checks finalize-exactly-once / never-after-final on every history with injected render "
+        "failures, close and drop; the real code's per-data event log (created / rendered / finalized) "
+        "must equal the specified program for every operation and failure point, and random operation "
+        "logs are validated against the lifecycle automaton.",
+        design_ref="DESIGN.md 3 C10",
+    ),
 }
 
 PENDING: dict[str, str] = {}
